@@ -548,6 +548,22 @@ func TestVerifOPRF(t *testing.T) {
 		if m == oprf.PartialObliviousMode {
 			info = makeInfo(r)
 		}
+		// the empty info is held as nil by one party and as an empty slice by the
+		// other in every combination: both are the same (empty) public input
+		infoSrv, infoCli := info, info
+		if m == oprf.PartialObliviousMode && len(info) == 0 {
+			switch c.i % 4 {
+			case 0:
+				infoSrv, infoCli, info = nil, nil, nil
+			case 1:
+				infoSrv, infoCli, info = nil, []byte{}, []byte{}
+			case 2:
+				infoSrv, infoCli, info = []byte{}, nil, nil
+			default:
+				infoSrv, infoCli, info = []byte{}, []byte{}, nil
+			}
+			lib.Count("oprf:empty-info-nil-and-empty-slice")
+		}
 		lib.Case(append([][]byte{[]byte(id), {byte(m)}, skb, info}, inputs...)...)
 		if n == 5 {
 			lib.Count("oprf:batch-5")
@@ -581,11 +597,11 @@ func TestVerifOPRF(t *testing.T) {
 					}
 				}
 				stage = "evaluate"
-				if ev, err = oEvaluate(su, m, sk, req, info); err != nil {
+				if ev, err = oEvaluate(su, m, sk, req, infoSrv); err != nil {
 					return
 				}
 				stage = "finalize"
-				outs, err = oFinalize(su, m, pk, fd, ev, info)
+				outs, err = oFinalize(su, m, pk, fd, ev, infoCli)
 			})
 			if p != nil {
 				viol("panic", "honest-protocol", "stage", stage, "panic", p.Value, "frame", p.TopFrame(), "sk", skb, "info", info, "inputs", hexes(ins))
